@@ -32,6 +32,13 @@ fn load_sum(m: &mut M, d: usize, hi: f64, delta: f64) {
     m.call("arith", "new_add", "inh", Some(d), &[A::F(hi), A::F(delta)]);
 }
 
+/// arguments of small magnitude, one binade at a time over the range in which the behaviour of a
+/// double-double algorithm changes (terms of order x^2, x^3 cross the 2^-106 resolution)
+fn tiny_arg(r: &mut Rng) -> f64 {
+    let e = r.range(-118, -1) as i32;
+    log_uniform(r, e, e + 1)
+}
+
 fn log_uniform(r: &mut Rng, emin: i32, emax: i32) -> f64 {
     let e = r.range(emin as i64, emax as i64 - 1) as i32;
     f64::from_bits((((e + 1023) as u64) << 52) | (r.next() & ((1u64 << 52) - 1)))
@@ -132,7 +139,7 @@ pub fn powi(m: &mut M, r: &mut Rng, n: u64) {
 
 // ------------------------------------------------------------------------------------ C14
 fn exp_arg(m: &mut M, r: &mut Rng, d: usize) {
-    match r.below(12) {
+    match r.below(13) {
         0..=4 => {
             // x = y/2 + n/128 + delta : every table entry, both sides of the reduction boundaries
             let y = r.range(-1400, 1416) as f64;
@@ -168,6 +175,10 @@ fn exp_arg(m: &mut M, r: &mut Rng, d: usize) {
             let z = if r.coin() { 0.0 } else { -0.0 };
             m.load(d, z, 0.0);
         }
+        9 | 10 => {
+            let h = sgn(r) * tiny_arg(r);
+            load_near(m, r, d, h);
+        }
         _ => {
             let h = sgn(r) * log_uniform(r, -10, 10).min(740.0);
             load_near(m, r, d, h);
@@ -190,7 +201,7 @@ pub fn exps(m: &mut M, r: &mut Rng, n: u64) {
                     }
                     1 => {
                         let e = r.range(-1000, -8) as i32;
-                        let h = sgn(r) * log_uniform(r, e, e + 1);
+                        let h = sgn(r) * if r.coin() { log_uniform(r, e, e + 1) } else { tiny_arg(r) };
                         load_near(m, r, 2, h);
                     }
                     2 => {
@@ -221,8 +232,7 @@ pub fn exps(m: &mut M, r: &mut Rng, n: u64) {
                         load_sum(m, 2, b, sgn(r) * pow2(-(r.range(1, 50) as i32)) * r.below(3) as f64);
                     }
                     3 => {
-                        let e = r.range(-200, -1) as i32;
-                        let h = sgn(r) * log_uniform(r, e, e + 1);
+                        let h = sgn(r) * tiny_arg(r);
                         load_near(m, r, 2, h);
                     }
                     _ => {
@@ -346,7 +356,7 @@ pub fn logs(m: &mut M, r: &mut Rng, n: u64) {
             }
             1 => {
                 let e = r.range(-1000, -8) as i32;
-                let h = sgn(r) * log_uniform(r, e, e + 1);
+                let h = sgn(r) * if r.coin() { log_uniform(r, e, e + 1) } else { tiny_arg(r) };
                 load_near(m, r, 6, h);
             }
             2 => {
@@ -382,7 +392,7 @@ fn trig_arg(m: &mut M, r: &mut Rng, d: usize) {
         }
         3 => {
             let e = r.range(-1000, -2) as i32;
-            let h = sgn(r) * log_uniform(r, e, e + 1);
+            let h = sgn(r) * if r.below(3) == 0 { log_uniform(r, e, e + 1) } else { tiny_arg(r) };
             load_near(m, r, d, h);
         }
         4 => {
@@ -442,7 +452,7 @@ pub fn atrig(m: &mut M, r: &mut Rng, n: u64) {
             }
             2 => {
                 let e = r.range(-300, -2) as i32;
-                let h = sgn(r) * log_uniform(r, e, e + 1);
+                let h = sgn(r) * if r.coin() { log_uniform(r, e, e + 1) } else { tiny_arg(r) };
                 load_near(m, r, 0, h);
             }
             3 => {
@@ -465,7 +475,7 @@ pub fn atrig(m: &mut M, r: &mut Rng, n: u64) {
             }
             2 => {
                 let e = r.range(-300, -2) as i32;
-                let h = sgn(r) * log_uniform(r, e, e + 1);
+                let h = sgn(r) * if r.coin() { log_uniform(r, e, e + 1) } else { tiny_arg(r) };
                 load_near(m, r, 3, h);
             }
             3 => {
@@ -513,8 +523,7 @@ pub fn hyp(m: &mut M, r: &mut Rng, n: u64) {
         // forward functions: (x, -x) pairs
         match r.below(6) {
             0 => {
-                let e = r.range(-40, -1) as i32;
-                let h = log_uniform(r, e, e + 1);
+                let h = if r.coin() { tiny_arg(r) } else { log_uniform(r, -40, 0) };
                 load_near(m, r, 0, h);
             }
             1 => exp_arg_pos(m, r, 0),
@@ -539,8 +548,7 @@ pub fn hyp(m: &mut M, r: &mut Rng, n: u64) {
                 load_near(m, r, 3, h);
             }
             1 => {
-                let e = r.range(-40, -1) as i32;
-                let h = log_uniform(r, e, e + 1);
+                let h = if r.coin() { tiny_arg(r) } else { log_uniform(r, -40, 0) };
                 load_near(m, r, 3, h);
             }
             _ => {
@@ -577,8 +585,7 @@ pub fn hyp(m: &mut M, r: &mut Rng, n: u64) {
                 m.load(6, *r.pick(&[1.0, -1.0, 1.5, 0.0, -0.0]), 0.0);
             }
             2 => {
-                let e = r.range(-40, -1) as i32;
-                let h = sgn(r) * log_uniform(r, e, e + 1);
+                let h = sgn(r) * if r.coin() { tiny_arg(r) } else { log_uniform(r, -40, 0) };
                 load_near(m, r, 6, h);
             }
             _ => {
